@@ -61,7 +61,7 @@ World(kp, kq) ==
   Chain \cup Outer \cup { D(P), D(Q), D(S), D(M), L(LNK, Q) }
   \cup GitDir(Append(M, ".git"), "ref") \cup GitDir(SEP, "ref")
   \cup (IF "linked" \in {kp, kq} THEN { D(M \o <<".git", "worktrees">>) } ELSE {})
-  \cup Place(P, kp, "wp") \cup Place(Q, kq, "wq")
+  \cup Place(P, kp, "p") \cup Place(Q, kq, "q")
 
 \* ---- queries ---------------------------------------------------------------------------
 Abs(p) == [abs |-> TRUE, comps |-> p]
